@@ -407,3 +407,17 @@ def fx_lockorder(fx):
     sync.lock_order(c1, fx, "src/lib.rs", self_ty_filter=r"lockorder_ok::Q")
     sync.lock_order(c2, fx, "src/lib.rs", self_ty_filter=r"lockorder_bad::Q")
     return not c1.violations and len(c2.violations) >= 1
+
+
+def fx_dropwrite(fx):
+    from rules import order
+    prev = order.FX
+    order.use_facts(fx)
+    try:
+        c = _ctx()
+        for fid in fx.fn_ids("src/lib.rs"):
+            if fid.endswith("as std::ops::Drop>::drop") and "dropwrite::" in fid:
+                order.forbidden_in(c, Fn(fx.raw(fid)), r"fs::write$", "R-ORDER.drop", "drop does not write")
+    finally:
+        order.use_facts(prev)
+    return _fires(c, "dropwrite::BadFile") and not _fires(c, "dropwrite::OkFile")
